@@ -1275,7 +1275,16 @@ class GrammarModel:
             e2[args[0]] = SelfRef()
             for mname, mfi in cls.methods.items():
                 pass
-            cfg = {'_allow_properties': flag}
+            # the attribute(s) of the parser that hold the option: whatever __init__ binds to its `allow_properties` parameter
+            flag_attrs = {'_allow_properties'}
+            init_ = cls.methods.get('__init__')
+            if init_ is not None:
+                for n_ in ast.walk(init_.node):
+                    if isinstance(n_, ast.Assign) and isinstance(n_.value, ast.Name) and n_.value.id == 'allow_properties':
+                        for t_ in n_.targets:
+                            if isinstance(t_, ast.Attribute) and isinstance(t_.value, ast.Name) and t_.value.id == args[0]:
+                                flag_attrs.add(t_.attr)
+            cfg = {a_: flag for a_ in flag_attrs}
             e2['$self'] = {m: FuncRef(Action('method', self.PARSER_MOD, f'PyDBMLParser.{m}', fi.node))
                            for m, fi in cls.methods.items()}
             saved_ws = self.ev.default_ws
